@@ -461,6 +461,24 @@ func failureInjection(R *Result, native bool, tierName string) error {
 				R.Bad(desc, sig, "LoadOnce reported success although it was interrupted, and the DBIs hold different generations %v", gens)
 			}
 		}
+		if lerr != nil && class == "cancel" {
+			// the same update merged again after the interrupted attempt was rolled back: the whole snapshot, not
+			// what the first attempt had not yet read
+			_, _, lerr2 := cw.s.LoadOnce(context.Background(), cw.env, "remote", upd, 0)
+			R.Add(1, 0, 0)
+			if lerr2 != nil {
+				R.Bad(desc, sig, "merging the snapshot again after the interrupted attempt fails: %v", lerr2)
+			} else {
+				for d := 0; d < 3; d++ {
+					v, _, _ := appValue(cw, native, fmt.Sprintf("db%d", d), []byte("gen"))
+					k0, _, _ := appValue(cw, native, fmt.Sprintf("db%d", d), []byte("key-0000"))
+					if string(v) != "new" || len(k0) == 0 || k0[0] != 'n' {
+						R.Bad(desc, sig, "after an interrupted attempt was rolled back, merging the same snapshot again reports success but DBI db%d holds gen=%q key-0000=%.12q: only part of the snapshot was merged", d, v, k0)
+						break
+					}
+				}
+			}
+		}
 		return nil
 	}
 	// malformed entry in DBI j at entry e
